@@ -96,6 +96,7 @@ def run(ctx):
     from . import evaltables
     evaltables.rule_application(ctx, "C05-binding-frames", {"frame", "bind"})
     evaltables.rule_trampoline(ctx, "C05-binding-frames", {"frame"})
+    evaltables.rule_thunk_call(ctx, "C05-binding-frames")
     # ... and the parser must hand the evaluator every sub-form of what the derived forms expand into: thunk calls with internal
     # definitions and several body forms (begin, (let () ...)), nested calls, conditionals
     ctx.rule("C05-core-forms-kept", "the parser keeps every sub-form of the core forms the derived forms expand into (lambda / thunk call with "
